@@ -618,6 +618,20 @@ func TestC14(t *testing.T) {
 			}
 			cfg.Capitalizations = append(cfg.Capitalizations, rapid.SampledFrom([]string{"ID", "URL", "aB", "É", "日"}).Draw(rt, "cap"))
 		}
+		if rapid.IntRange(0, 3).Draw(rt, "lowercap") == 0 {
+			// a capitalization that starts with a lower-case letter and names whose first
+			// word is that word: the identifier must still be exported
+			w := rapid.SampledFrom([]string{"ios", "grpc", "ebay", "mtls", "ébpf"}).Draw(rt, "lowercapword")
+			rs := []rune(w)
+			cfg.Capitalizations = append(cfg.Capitalizations, string(rs[:1])+strings.ToUpper(string(rs[1:])))
+			for _, nm := range []string{w + "_version", w + "Build", w, strings.ToUpper(w) + "-x", "minimum_" + w} {
+				if !used[nm] && rapid.Bool().Draw(rt, "lowercapname") {
+					used[nm] = true
+					names = append(names, nm)
+				}
+			}
+			c.Count("shape.lowercase_initial_capitalization")
+		}
 		switch layout {
 		case 0:
 			handle(siblingNamesCase(names, cfg))
@@ -633,6 +647,50 @@ func TestC14(t *testing.T) {
 	})
 	if res.Failed {
 		c.Infra("random generation failed: " + core.Clip(res.Msg, 400))
+	}
+	// two referenced files whose names normalise to the same identifier: two distinct types,
+	// each binding its own file's keys
+	resF := c.Rapid("filenames", c.N(24, 300), 5, func(rt *rapid.T) {
+		pair := rapid.SampledFrom([][2]string{
+			{"parts/line-item.json", "parts/line_item.json"}, {"a/common.json", "b/common.json"},
+			{"x/line.item.json", "x/line-item.json"}, {"item.json", "sub/item.json"}, {"LineItem.json", "lineItem.json"},
+		}).Draw(rt, "filepair")
+		kinds := rapid.Permutation([]model.Kind{model.KString, model.KInteger, model.KBoolean}).Draw(rt, "kinds")
+		f1 := &model.File{RelPath: pair[0], ID: "https://example.com/colliding1", Root: &model.Node{Kind: model.KObject, Props: []model.Prop{
+			{Name: "sku", Node: &model.Node{Kind: kinds[0]}}}, Required: []string{"sku"}}}
+		f2 := &model.File{RelPath: pair[1], ID: "https://example.com/colliding2", Root: &model.Node{Kind: model.KObject, Props: []model.Prop{
+			{Name: "qty", Node: &model.Node{Kind: kinds[1]}}, {Name: "note", Node: &model.Node{Kind: kinds[2]}}}, Required: []string{"qty"}}}
+		if rapid.Bool().Draw(rt, "swapfiles") {
+			f1.Root, f2.Root = f2.Root, f1.Root
+		}
+		main := &model.File{RelPath: "prog.json", ID: "https://example.com/prog", Root: &model.Node{Kind: model.KObject, Props: []model.Prop{
+			{Name: "first", Node: &model.Node{Kind: model.KRef, Ref: pair[0], Target: f1.Root}},
+			{Name: "second", Node: &model.Node{Kind: model.KRef, Ref: pair[1], Target: f2.Root}},
+			{Name: "more", Node: &model.Node{Kind: model.KArray, Items: &model.Node{Kind: model.KRef, Ref: pair[1], Target: f2.Root}}},
+		}, Required: []string{"first", "second"}}}
+		cs := caseOf(baseConfig(), []string{main.RelPath}, main, f1, f2)
+		o := docOpts(c)
+		oo := *o
+		oo.AllProps = true
+		v, ok := docs.Valid(rt, main.Root, &oo)
+		if !ok {
+			return
+		}
+		jobs := []core.Job{{Type: progRoot, Op: "json", Doc: string(v.Marshal()), Expect: "accept", ExpectVal: expJSON(docs.Expect(main.Root, v)), Label: "colliding-files:valid"}}
+		muts, _ := docs.Mutants(rt, main.Root, v, map[string]bool{"required": true, "type": true}, o)
+		for i := range muts {
+			if i >= 40 {
+				break
+			}
+			m := &muts[i]
+			jobs = append(jobs, core.Job{Type: progRoot, Op: "json", Doc: string(m.Doc.Marshal()), Expect: "reject", Rule: m.Rule() + "@" + m.Path, Label: "colliding-files:" + strings.SplitN(m.Label, "<-", 2)[0]})
+		}
+		runCases = append(runCases, &RunCase{Case: cs, Jobs: jobs})
+		c.Count("shape.colliding_file_names")
+		c.NonTrivial(pair[0], pair[1], cs.Files[1].Text, cs.Files[2].Text)
+	})
+	if resF.Failed {
+		c.Infra("file-name collision generation failed: " + core.Clip(resF.Msg, 400))
 	}
 	// binding run
 	seenRun := map[string]bool{}
